@@ -7,6 +7,7 @@ import RsModel.Lemmas.ModeCold
 import RsModel.Lemmas.NameLevel
 import RsModel.Lemmas.LinesTree
 import RsModel.Lemmas.WarmMap
+import RsModel.Lemmas.HistoryAnswers
 /-!
 # C03 — `map()` attributes every position exactly as the chunk stream does
 (T1 of DESIGN: the codec step of the chain.)
@@ -204,5 +205,20 @@ theorem c03_map_twice_warm (s : Src) (σ : Store) (h : s.ModeHypC) (hk : s.Cache
     (attrFrom (decode sm2.mappings) startPos s.src).map (Option.map (resolveMF sm2))
       = (attrFrom (decode sm1.mappings) startPos s.src).map (Option.map (resolveMF sm1)) :=
   getMap_twice s σ h hk hs hn hc f1 f2 hsmall1 hsmall2 sm1 sm2 h1 h2
+
+/-- **C03 over every call history** (columns = true): in any history of streaming and `get_map` calls on a tree with CachedSource
+nodes (none beneath a ReplaceSource), of any length and in any order of options, starting on cold caches — ANY normal-mode stream
+`k₁` of the history and the map built by ANY `get_map` `k₂` of the history attribute every byte of `source()` alike: to the same
+file name, original line, original column and name (each through its own tables).  `c10_every_history` ∘ the two-call theorems. -/
+theorem c03_every_history (s : Src) (hk : s.NoCR) (hn : s.ids.Nodup) (σ : Store) (hc : Cold σ s.ids) (h : s.ModeHypC) (hs : s.SmallF)
+    (hw : s.WarmHyp)
+    (hsmall1 : ∀ m ∈ chunkMs (s.strip.stream ⟨true, true⟩ []).1.evs, m.small)
+    (hsmall2 : ∀ m ∈ chunkMs ((s.warm ⟨true, true⟩).stream ⟨true, true⟩ []).1.evs, m.small)
+    (calls : List Opts) (k1 k2 : Nat) (hc1 : calls[k1]? = some ⟨true, false⟩) (hc2 : calls[k2]? = some ⟨true, true⟩) :
+    ∃ r1 r2, (runCalls s calls σ).1[k1]? = some r1 ∧ (runCalls s calls σ).1[k2]? = some r2 ∧ ∀ sm, mapOfEvs true r2.evs = some sm →
+      (attrFrom (decode sm.mappings) startPos s.src).map (Option.map (resolveMF sm)) = NA r1.evs := by
+  obtain ⟨r1, a1, a2⟩ := history_stream_NA s hk hn σ hc hw calls k1 hc1
+  obtain ⟨r2, b1, b2⟩ := history_map_NA s hk hn σ hc h hs hsmall1 hsmall2 calls k2 hc2
+  exact ⟨r1, r2, a1, b1, fun sm hsm => by rw [b2 sm hsm, a2]⟩
 
 end Rs
